@@ -336,3 +336,97 @@ func c02verbs(format string) []byte {
 	}
 	return out
 }
+
+// c02next (C02.width, continued): backup() steps back by lexer.width, so next() must leave width describing
+// exactly what it consumed on every path: width is assigned before every return, and the position is advanced
+// by that same amount (by `pos += width`, or by the constant just stored into width) — at the end of the
+// input nothing is consumed and width is 0, otherwise backup() walks back over a rune that was not read by
+// this call and the scanner reads the same input for ever.
+func c02next(c *an.Ctx) {
+	p := c.P
+	f := c.Fn("C02.width", "(*lexer).next")
+	if f == nil {
+		return
+	}
+	info := f.Info()
+	constOf := func(e ast.Expr) string {
+		if tv, ok := info.Types[e]; ok && tv.Value != nil {
+			return tv.Value.ExactString()
+		}
+		return ""
+	}
+	bad := ""
+	badPos := f.Pos()
+	var badFacts []string
+	x := p.NewExplorer(f, an.Hooks{
+		PreAssign: func(x *an.Explorer, lhs, rhs ast.Expr, stmt ast.Node, st *an.State) {
+			switch p.FieldKey(info, lhs) {
+			case "lexer.width":
+				w := "?"
+				if rhs != nil {
+					if k := constOf(rhs); k != "" {
+						w = k
+					} else {
+						w = "=" + an.Str(rhs)
+					}
+				}
+				st.Set("w", w)
+				st.Set("adv", "")
+			case "lexer.pos":
+				adv := "?"
+				switch s := stmt.(type) {
+				case *ast.IncDecStmt:
+					if s.Tok == token.INC {
+						adv = "1"
+					}
+				case *ast.AssignStmt:
+					if s.Tok == token.ADD_ASSIGN && len(s.Rhs) == 1 {
+						if p.FieldKey(info, s.Rhs[0]) == "lexer.width" {
+							adv = "width"
+						} else if k := constOf(s.Rhs[0]); k != "" {
+							adv = k
+						} else {
+							adv = "=" + an.Str(s.Rhs[0])
+						}
+					}
+				}
+				if st.Get("adv") != "" {
+					adv = "?" // advanced twice
+				}
+				st.Set("adv", adv)
+			}
+		},
+		Return: func(x *an.Explorer, r *ast.ReturnStmt, st *an.State) {
+			if bad != "" {
+				return
+			}
+			w, adv := st.Get("w"), st.Get("adv")
+			switch {
+			case w == "":
+				bad = "returns without having set width: backup() would step back by the width of an earlier rune"
+			case adv == "" && w == "0":
+			case adv == "width":
+			case adv != "" && adv != "?" && (adv == w || "=Pos("+adv[1:]+")" == w || adv == "=Pos("+w[1:]+")"):
+			default:
+				bad = "advances the position by " + adv + " but records width " + w
+			}
+			if bad != "" {
+				badPos = r.Pos()
+				badFacts = an.Facts(st)
+			}
+		},
+	})
+	x.Run(nil)
+	c.States += x.Visited
+	c.FnsAnalysed[f.Name] = true
+	key := "(*lexer).next/width-is-what-was-consumed"
+	if x.Undecided != "" {
+		c.Undecided("C02.width", key, f.Pos(), "%s", x.Undecided)
+		return
+	}
+	if bad != "" {
+		c.Bad("C02.width", key, badPos, badFacts, "next() %s", bad)
+	} else {
+		c.OK("C02.width", key, f.Pos(), "on every path width is set to what was consumed (0 at the end of the input)")
+	}
+}
